@@ -631,6 +631,11 @@ def tolerance_for(q, tols):
         return 0.1
     if q == "muMinLowT":
         return 1e-3              # extrapolation: second derivative at the range end
+    if q in ("alphaN", "alpha", "csqHigh", "csqLow", "ddpLow"):
+        # contain SECOND temperature derivatives of the interpolated tables, whose accuracy
+        # is not set by phaseTracerTol alone: floor MEASURED on the unchanged tree (largest
+        # deviation 8.9e-6, quarticlog x10 at tightened tolerances), not derived
+        return max(eos, 3e-5)
     return eos
 
 
